@@ -554,6 +554,9 @@ func mkContains(s, sub *Term) *Term { // s contains sub
 			return tTrue
 		}
 	}
+	if sub.Op == "str.++" && s.Op == "str.++" && concatInside(s.Args, sub.Args) {
+		return tTrue
+	}
 	if sub.Op == "cs" && len(sub.S) >= 1 && s.Op == "str.from_int" {
 		for i := 0; i < len(sub.S); i++ {
 			if sub.S[i] < '0' || sub.S[i] > '9' {
@@ -573,6 +576,32 @@ func mkContains(s, sub *Term) *Term { // s contains sub
 		return mkOr(alts...)
 	}
 	return rawApp("str.contains", SBool, s, sub)
+}
+
+// concatInside: the part sequence sub occurs inside the part sequence s
+// (first and last constant parts of sub may match a suffix / prefix of the
+// corresponding constant parts of s).
+func concatInside(s, sub []*Term) bool {
+	n := len(sub)
+	for i := 0; i+n <= len(s); i++ {
+		ok := true
+		for j := 0; j < n && ok; j++ {
+			a, b := s[i+j], sub[j]
+			switch {
+			case a.key == b.key:
+			case a.Op == "cs" && b.Op == "cs" && j == 0 && n > 1:
+				ok = strings.HasSuffix(a.S, b.S)
+			case a.Op == "cs" && b.Op == "cs" && j == n-1 && n > 1:
+				ok = strings.HasPrefix(a.S, b.S)
+			default:
+				ok = false
+			}
+		}
+		if ok {
+			return true
+		}
+	}
+	return false
 }
 
 func mkAt(s, i *Term) *Term {
